@@ -55,6 +55,15 @@ class Ctx:
     def report(self, what, features, replay_obj):
         """A divergence between model and implementation. Matched against the open known findings;
         unmatched -> violation with a replay file."""
+        devs = features.get('devs')
+        if devs:
+            # the reference model reproduced the observation exactly under these named deviations
+            by_dev = {f.get('dev'): f for f in self.findings if f['status'] == 'open' and f.get('dev')}
+            if all(d in by_dev for d in devs):
+                for d in devs:
+                    fid = by_dev[d]['id']
+                    self.known_hits[fid] = self.known_hits.get(fid, 0) + 1
+                return by_dev[devs[0]]['id']
         fid = match_finding(self.findings, features)
         if fid is not None:
             self.known_hits[fid] = self.known_hits.get(fid, 0) + 1
@@ -137,7 +146,7 @@ def match_finding(findings, features):
     for f in findings:
         if f['status'] != 'open':
             continue
-        for sig in f['signatures']:
+        for sig in f.get('signatures', []):
             if all(k in features and _match_one(w, features[k]) for k, w in sig.items()):
                 return f['id']
     return None
